@@ -90,6 +90,11 @@ void _ZNK26QXmppIncomingClientPrivate6originEv(char *ret, char *self) { QSD(ret)
 /* ---- empty model block used instead of shared_null where a result is merged with model blocks (see c16_pre.c) ---- */
 static struct qs c16_empty_blk = { { {{{{ (uint32_t)-1 }}}}, 0, 0, QS_OFF }, 0, 0, 0, 1, 1, 0, 0, 0, { 0 } };
 #define C16_EMPTY (&c16_empty_blk.h)
+/* default-constructed QString / QByteArray (inline QTypedArrayData<T>::sharedNull(), overridden): an empty MODEL block of the right
+   type, so that "still default-constructed or assigned a model string" merges stay field-sensitive (same value: size 0, static ref count) */
+static struct qb c16_empty_bytes = { { {{{{ (uint32_t)-1 }}}}, 0, 0, QB_OFF }, 0, 0, 0, 0, 0, { 0 } };
+char* _ZN15QTypedArrayDataItE10sharedNullEv(void) { return (char*)&c16_empty_blk.h; }
+char* _ZN15QTypedArrayDataIcE10sharedNullEv(void) { return (char*)&c16_empty_bytes.h; }
 void _ZNK7QString3midEii(char *ret, char *self, uint32_t pos, uint32_t n) { QAD *d = QSD(self); int32_t p = (int32_t)pos, len = (int32_t)n; int nul; mid_calc((int32_t)d->f1, &p, &len, &nul);
   if (nul) { QSD(ret) = C16_EMPTY; return; } if (p == 0 && len == (int32_t)d->f1) { QSD(ret) = qad_ref(d); return; } ASSERT(!numS(d).isnum, "mid() of an abstract number string");
   QAD *r = qs_new((uint32_t)len, qs_hint(d)); vpl_copy16(r, 0, qs_chars(d) + p, (uint32_t)len, qs_hint(d)); qs_seal(r, 0); QSD(ret) = r; }
